@@ -764,7 +764,7 @@ func runBC(c *hx.Ctx) {
 	}
 	results := make([]*result, len(scs))
 	var wg sync.WaitGroup
-	sem := make(chan struct{}, 8)
+	sem := make(chan struct{}, parallelScenarios())
 	for i := range scs {
 		wg.Add(1)
 		sem <- struct{}{}
@@ -834,4 +834,16 @@ func replayScenarios(c *hx.Ctx) []*scenario {
 		}
 	}
 	return out
+}
+
+// parallelScenarios: scenarios spend most of their time waiting (settle windows of a few milliseconds up to 30 ms when a
+// goroutine is blocked on a token), so more of them than there are busy cores can run side by side; BC_PARALLEL overrides.
+func parallelScenarios() int {
+	if s := os.Getenv("BC_PARALLEL"); s != "" {
+		var n int
+		if _, err := fmt.Sscanf(s, "%d", &n); err == nil && n > 0 {
+			return n
+		}
+	}
+	return 12
 }
